@@ -85,6 +85,8 @@ class Scheduler:
             finally:
                 a.state = "done"
                 a.label = "end"
+                # thread idents are reused by the OS: forget ours, or a later uncontrolled thread would be taken for an actor
+                self._tids.pop(threading.get_ident(), None)
                 self.ctl.release()
 
         t = threading.Thread(target=body, name=f"actor-{name}", daemon=True)
